@@ -73,7 +73,7 @@ def reviewedWrites : List FieldWrite := [
   ⟨"InitType", "ctor", "InitType.Resolve", .write⟩,
   ⟨"IterableType", "typ", "IterableType.Resolve", .write⟩,
   ⟨"IteratorType", "typ", "IteratorType.Resolve", .write⟩,
-  ⟨"LikeType", "resolved", "LikeType.Resolve", .write⟩,
+  ⟨"LikeType", "resolved", "LikeType.Resolve", .lazyFill⟩,
   ⟨"NotUndefType", "typ", "NotUndefType.Resolve", .write⟩,
   ⟨"OptionalType", "typ", "OptionalType.Resolve", .write⟩,
   ⟨"SensitiveType", "typ", "SensitiveType.Resolve", .write⟩,
@@ -131,19 +131,58 @@ def reviewedWrites : List FieldWrite := [
   ⟨"?", "valueType", "init", .write⟩,
   ⟨"format", "containerFormats", "init", .write⟩]
 
-def fieldWritesSafeB (t : List FieldWrite) : Bool := t.all fun w => reviewedWrites.contains w
+/-- calls of unexported helpers: (helper, caller, fields of the call's receiver that are empty at every such call) -/
+abbrev HelperCalls := List (String × String × List String)
 
-def FieldWritesSafe (t : List FieldWrite) : Prop := fieldWritesSafeB t = true
+/-- ONE ROW is acceptable when
+    * it is a reviewed row, or
+    * it is a construction write (`.fresh`: the object was created in the same function — not a value anybody holds), or
+    * it is a guarded lazy fill of a (struct, field) that is reviewed as a lazily filled field (whichever function holds the
+      statement), or
+    * it sits in an unexported HELPER and, for every caller of the helper (one level), the same write of the same
+      (struct, field) is reviewed for that caller — with the same kind, or as a lazy fill when the helper is only called with
+      that field empty (`if x.f == nil { x.fill() }`).
+    So a new helper that assigns nothing, a statement moved inside its method, a lazy fill rewritten with a guard clause, or a
+    reviewed statement extracted into an unexported helper create no unreviewed row; a NEW assignment does. -/
+def rowOK (calls : HelperCalls) (w : FieldWrite) : Bool :=
+  reviewedWrites.contains w ||
+  w.kind == .fresh ||
+  (w.kind == .lazyFill && reviewedWrites.any fun r => r.ty == w.ty && r.field == w.field && r.kind == .lazyFill) ||
+  (let cs := calls.filter fun c => c.1 == w.fn
+   !cs.isEmpty && cs.all fun c => reviewedWrites.any fun r =>
+     r.ty == w.ty && r.field == w.field && r.fn == c.2.1 &&
+       (r.kind == w.kind || (r.kind == .lazyFill && c.2.2.contains w.field)))
 
-instance (t : List FieldWrite) : Decidable (FieldWritesSafe t) := by unfold FieldWritesSafe; infer_instance
+def fieldWritesSafeB (calls : HelperCalls) (t : List FieldWrite) : Bool := t.all (rowOK calls)
 
-def writesDfrArgs (w : FieldWrite) : Bool := w.ty == "deferred" && w.field == "arguments" && w.fn == "deferred.Resolve"
+def FieldWritesSafe (calls : HelperCalls) (t : List FieldWrite) : Prop := fieldWritesSafeB calls t = true
 
-/-- no reviewed row is a write of `deferred.arguments` by `Resolve` (nor by anything else: `deferred` has no row at all) -/
+instance (calls : HelperCalls) (t : List FieldWrite) : Decidable (FieldWritesSafe calls t) := by
+  unfold FieldWritesSafe; infer_instance
+
+/-- no reviewed row concerns `deferred` at all -/
 theorem reviewed_no_deferred : reviewedWrites.all (fun w => !(w.ty == "deferred")) = true := by decide
 
+/-- an acceptable row that is not a construction write has a reviewed row for the same struct -/
+theorem rowOK_ty {calls : HelperCalls} {w : FieldWrite} (h : rowOK calls w = true) (hk : (w.kind != .fresh) = true) :
+    ∃ r ∈ reviewedWrites, r.ty = w.ty := by
+  unfold rowOK at h
+  simp only [Bool.or_eq_true, Bool.and_eq_true, List.any_eq_true, List.all_eq_true, beq_iff_eq, Bool.not_eq_true',
+    List.isEmpty_eq_false_iff] at h
+  rcases h with ((h | h) | h) | h
+  · exact ⟨w, List.contains_iff_mem.mp h, rfl⟩
+  · simp [h] at hk
+  · obtain ⟨_, r, hr, hrr⟩ := h
+    exact ⟨r, hr, hrr.1.1⟩
+  · obtain ⟨hne, hall⟩ := h
+    obtain ⟨c, cs', hc⟩ := List.exists_cons_of_ne_nil hne
+    have hcm : c ∈ calls.filter (fun c => c.1 == w.fn) := by rw [hc]; exact List.mem_cons_self
+    obtain ⟨r, hr, hrr⟩ := hall c hcm
+    exact ⟨r, hr, hrr.1.1.1⟩
+
 /-- under the side condition the resolving methods do not assign a Deferred's argument list -/
-theorem safe_dfrArgs {t : List FieldWrite} (h : FieldWritesSafe t) : (Writes.ofTable t).dfrArgs = false := by
+theorem safe_dfrArgs {calls : HelperCalls} {t : List FieldWrite} (h : FieldWritesSafe calls t) :
+    (Writes.ofTable t).dfrArgs = false := by
   unfold FieldWritesSafe fieldWritesSafeB at h
   simp only [Writes.ofTable]
   rw [Bool.eq_false_iff]
@@ -151,10 +190,11 @@ theorem safe_dfrArgs {t : List FieldWrite} (h : FieldWritesSafe t) : (Writes.ofT
   rw [List.any_eq_true] at hc
   obtain ⟨w, hw, hd⟩ := hc
   rw [List.all_eq_true] at h
-  have hr := h w hw
-  have := List.all_eq_true.mp reviewed_no_deferred w (List.contains_iff_mem.mp hr)
-  simp only [Bool.and_eq_true] at hd
-  simp [hd.1.1] at this
+  simp only [Bool.and_eq_true, beq_iff_eq] at hd
+  obtain ⟨r, hr, hty⟩ := rowOK_ty (h w hw) hd.2
+  have := List.all_eq_true.mp reviewed_no_deferred r hr
+  rw [hty, hd.1.1] at this
+  simp at this
 
 /-! ### the serializer reads the value only (family sercalls: serialization/serializer.go)
 
